@@ -726,10 +726,23 @@ def charset_tables():
     return cs, co, maps, special
 
 
+CHARSET_BODIES = [
+    "charset.py:CharacterSet:codec", "charset.py:CharacterSet:decode", "charset.py:CharacterSet:encode", "charset.py:CharacterSet:default_collation",
+    "charset.py:Collation:charset", "charset.py:Collation:codec",
+    "connection.py:Connection:server_charset", "connection.py:Connection:client_charset", "connection.py:Connection:error",
+    "connection.py:Connection:text_resultset", "connection.py:Connection:handle_init_db",
+    "packets.py::parse_handshake_response_41", "packets.py::parse_com_change_user", "packets.py::parse_com_init_db",
+    "packets.py::parse_com_field_list", "packets.py::make_error", "packets.py::make_handshake_v10", "packets.py::make_auth_switch_request",
+    "packets.py::_read_param_value",
+]
+
+
 def facts_charset():
     import codecs
     cs, co, maps, special = charset_tables()
     out = []
+    for key in CHARSET_BODIES:
+        body_fact(key, out)
     out.append("(* (name, id, codec name, Python has that codec) *)")
     rows = []
     for name, i in cs:
